@@ -92,3 +92,17 @@ Theorem C19_rf_write_blocks_gapped : forall c ps s G D vec,
   else (exists code, py_rf_write_blocks c ps G D vec = ((ValueError, code), ps)).
 Proof. exact py_rf_write_blocks_gapped. Qed.
 Print Assumptions C19_rf_write_blocks_gapped.
+
+(* the reported last file and directory: after every accepted, non-empty block call the name the
+   writer holds (what get_last_file_written / get_last_dir_written report, also after close, since
+   close keeps w_cur) is the file of the most recently written sample, Fk (start + cursor - 1) --
+   and by C04 the directory is a function of that file.  Chunked layouts. *)
+From DRF Require Import Proofs.WriterLast.
+
+Theorem C19_last_file_is_file_of_last_sample : forall c st bl vec,
+  vcfg c -> c_chunk c = true -> Inv c st ->
+  valid_arrays (w_gi st) (zlen vec) bl = true -> c_cont c && multi bl = false -> first_nonneg bl ->
+  exists st', write_blocks c st bl vec = (0, st') /\
+              w_cur st' = Some (Fk c (c_start c + w_gi st' - 1)).
+Proof. exact last_file_is_file_of_last_sample. Qed.
+Print Assumptions C19_last_file_is_file_of_last_sample.
